@@ -13,10 +13,17 @@ while args:
     else: only.append(a)
 respath = '/verif/seeded/RESULTS.json'
 prev = {r['seed']: r for r in json.load(open(respath))}
+snap = None
+if use_eval:
+    import tempfile, shutil, atexit
+    snap = tempfile.mkdtemp(prefix='simsnap.', dir='/tmp')
+    shutil.copytree('/verif/sim', snap + '/sim')
+    atexit.register(lambda: shutil.rmtree(snap, ignore_errors=True))
 def one(d):
     name = os.path.basename(d); pid = name.split('-')[0]
     tool = 'eval_patch.sh' if use_eval else 'try_patch.sh'
     env = dict(os.environ)
+    if snap: env['VERIF_SIM'] = snap + '/sim'
     if use_eval and jobs > 1: env['EVAL_WORKERS'] = str(max(2, 16 // jobs))
     p = subprocess.run(f'/verif/tools/{tool} {d}/patch.diff {pid} {tier}', shell=True, cwd='/verif', capture_output=True, text=True, timeout=6*3600, env=env)
     return name, pid, d, p.stdout + p.stderr
